@@ -2,9 +2,12 @@
     Proved here: the bookkeeping sigpyproc adds around the transform (good-size padding, output slice, operand
     reversal and lag convention of correlate, the length handed to the inverse), over the definitions REGENERATED
     from the source in Gen/FftOps.v, for all lengths and all inputs, given the behaviour [fft_laws] of the external
-    transform.  NOT proved (no executable model of pocketfft): [fft_laws] itself, Parseval and "equals the Fourier
-    sum"; those are checked numerically for every length by tools/harness/props/c12.py.
+    transform.  Props/C12_dft.v proves that the exact DFT (over any commutative ring with principal roots of unity, e.g. the complex
+    numbers) satisfies [fft_laws] -- inversion and the convolution theorem are theorems, not assumptions, about the mathematical
+    transform.  NOT proved (no executable model of pocketfft): that pocketfft computes the DFT ("equals the Fourier sum", Parseval) to
+    float32 rounding; checked numerically for every length by tools/harness/props/c12.py.
     Only property theorems here; each is closed by [exact] of a lemma of Proofs/C12_conv.v. *)
+Require SPP.Props.C12_dft.   (* the DFT satisfies the assumed laws: stated in Props/C12_dft.v, required here so that it is part of this check's cone *)
 From Coq Require Import ZArith List Bool.
 Require Import SPP.Base.Rt SPP.Model.C12_np SPP.Model.C12_conv SPP.Gen.FftOps SPP.Proofs.C12_conv.
 Import ListNotations.
